@@ -196,6 +196,27 @@ type Client struct {
 	ValErr func(Spec) (int, error)
 }
 
+// trigger is the server-side handler of the "reverse" transport: it calls back into the client that called it and
+// keeps what that reverse call returned.
+type trigger struct {
+	val int
+	err error
+}
+
+func (t *trigger) Go(ctx context.Context, sp Spec, shape string) error {
+	rc, ok := jsonrpc.ExtractReverseClient[Client](ctx)
+	if !ok {
+		t.val, t.err = 0, errors.New("no reverse client")
+		return nil
+	}
+	if shape == "err" {
+		t.val, t.err = 77, rc.Err(sp)
+	} else {
+		t.val, t.err = rc.ValErr(sp)
+	}
+	return nil
+}
+
 type RegEntry struct {
 	Code int `json:"code"`
 	Ty   Ty  `json:"ty"`
@@ -310,7 +331,7 @@ func Run(d *fw.Driver, res *fw.Result, seed int64, n int, corpus []json.RawMessa
 		}
 		c.Bystander = r.Intn(4) == 0
 		c.Shape = fw.Pick(r, []string{"err", "valerr"})
-		c.Trans = fw.Pick(r, []string{"custom", "custom", "http", "ws"})
+		c.Trans = fw.Pick(r, []string{"custom", "custom", "http", "ws", "reverse"})
 		sp := Spec{Nil: r.Intn(8) == 0, Msg: fw.Pick(r, messages), Content: fw.Pick(r, []string{"k", "", "x y", "ünï", "\"q\""})}
 		sp.Ty = Ty{fw.Pick(r, names), r.Intn(2) == 0}
 		if forceTy.Name != "" {
@@ -472,6 +493,30 @@ func one(d *fw.Driver, res *fw.Result, c *Case) error {
 			url = "ws" + strings.TrimPrefix(url, "http")
 		}
 		closer, err = jsonrpc.NewMergeClient(context.Background(), url, "H", []interface{}{&cl}, nil, copts...)
+	case "reverse":
+		// the handler runs on a client (WithClientHandler; the handler side's table goes in with WithErrors), the
+		// caller is the reverse client a server-side handler extracts (the caller side's table with WithServerErrors)
+		var ropts []jsonrpc.ServerOption
+		if es, ok := entriesOf(c.CReg); ok {
+			ropts = append(ropts, jsonrpc.WithServerErrors(mkErrors(es)))
+		}
+		ropts = append(ropts, jsonrpc.WithReverseClient[Client]("H"))
+		rsrv := jsonrpc.NewServer(ropts...)
+		tr := &trigger{}
+		rsrv.Register("T", tr)
+		ts := httptest.NewServer(rsrv)
+		defer ts.Close()
+		hopts := []jsonrpc.Option{jsonrpc.WithClientHandler("H", H{})}
+		if es, ok := entriesOf(c.SReg); ok {
+			hopts = append(hopts, jsonrpc.WithErrors(mkErrors(es)))
+		}
+		var tcl struct{ Go func(Spec, string) error }
+		closer, err = jsonrpc.NewMergeClient(context.Background(), "ws"+strings.TrimPrefix(ts.URL, "http"), "T", []interface{}{&tcl}, nil, hopts...)
+		if err != nil {
+			return err
+		}
+		cl.Err = func(sp Spec) error { tcl.Go(sp, "err"); return tr.err }
+		cl.ValErr = func(sp Spec) (int, error) { tcl.Go(sp, "valerr"); return tr.val, tr.err }
 	}
 	if err != nil {
 		return err
